@@ -184,6 +184,8 @@ def regen_for(module):
                     import gen_lex; gen_lex.comment_rules()
                 elif g == 'Gen_LexRules':
                     import gen_lex; gen_lex.lex_rules()
+                elif g == 'Gen_NewlineActions':
+                    import gen_lex; gen_lex.newline_actions()
         except Exception as e:           # a translator that cannot read the source any more: the tie is broken, not the run
             errs.append((g, '%s: %s' % (type(e).__name__, e)))
     return errs
